@@ -1,14 +1,30 @@
 #!/usr/bin/env python3
-"""Prints the DESIGN.md section-12 table from /verif/seeded/*/meta.json."""
-import json, glob, os
+"""Prints the DESIGN.md section-12 tables from /verif/seeded/*/meta.json.
+   seed_table.py <round>   (1, 2 or 3)"""
+import json, glob, os, sys
 V = os.path.dirname(os.path.abspath(__file__))
+rnd = int(sys.argv[1]) if len(sys.argv) > 1 else 1
 rows = []
 for f in sorted(glob.glob(os.path.join(V, "seeded", "*", "meta.json"))):
     m = json.load(open(f))
+    if m.get("round", 1) != rnd:
+        continue
     tgt = m["property"]
     others = [c for c in m["caught_by"] if c != tgt]
-    rows.append("| %s | %s | %s | %s | %s |" % (m["seed"], m["what"].replace("|", "/"), m["needs_to_manifest"].replace("|", "/"),
-                                            ("**%s**" % tgt) if tgt in m["caught_by"] else "missed by %s" % tgt, ", ".join(others) or "-"))
-print("| seed | change | needs, to manifest | target check | also reported by |")
-print("|------|--------|--------------------|--------------|------------------|")
+    fin = os.path.join(os.path.dirname(f), "final.json")
+    final = ""
+    if os.path.exists(fin):
+        final = "reported" if json.load(open(fin)).get("reported") else "NOT REPORTED"
+    first = "missed, then reported after the repair" if m.get("missed_at_first") else "reported"
+    if rnd == 1:
+        rows.append("| %s | %s | %s | %s | %s |" % (m["seed"], m["what"].replace("|", "/"), m["needs_to_manifest"].replace("|", "/"),
+                                                ("**%s**" % tgt) if tgt in m["caught_by"] else "missed by %s" % tgt, ", ".join(others) or "-"))
+    else:
+        rows.append("| %s | %s | %s | %s | %s |" % (m["seed"], m["what"].replace("|", "/"), m["needs_to_manifest"].replace("|", "/"), first, final or "-"))
+if rnd == 1:
+    print("| seed | change | needs, to manifest | target check | also reported by |")
+    print("|------|--------|--------------------|--------------|------------------|")
+else:
+    print("| seed | change | needs, to manifest | target check as it stood | target check, final state |")
+    print("|------|--------|--------------------|--------------------------|---------------------------|")
 print("\n".join(rows))
